@@ -41,6 +41,11 @@ def gen(rng, ctx):
             if ch["nodes"][2][1] == "buf" and len([e for e in ch["edges"] if e[1] == "o"]) > 1:
                 ch["nodes"][2][1] = "and"
         children.append(ch)
+    # a child with the pin NAMES of blackbox `one` but the opposite directions (fill must refuse it)
+    children.append({"name": "ch2", "nodes": [["o", "input", False], ["p", rng.choice(["not", "buf", "and"]), True]], "edges": [["o", "p"]], "bbs": {}})
+    # a child with two outputs (both may be mapped onto the same parent net) and a nested blackbox instance
+    children.append({"name": "ch3", "nodes": [["a", "input", False], ["b", "input", False], ["y", "and", True], ["z", "or", True], ["n0.p", "bb_input", False], ["n0.o", "bb_output", False], ["w", "buf", False]],
+                     "edges": [["a", "y"], ["b", "y"], ["a", "z"], ["w", "z"], ["b", "n0.p"], ["n0.o", "w"]], "bbs": {"n0": {"name": "one", "inputs": ["p"], "outputs": ["o"]}}})
     names = ["a", "b", "c", "g", "x_y", "a_0", "u", "u.p", "u.o", "v", "1z", "w.d", "I", "I_p", "I_o", "u_p"]
     existing = [n for n, _, _ in start["nodes"]] if start else []
     n_ops = rng.randint(5, 40 if big else 28)
@@ -160,7 +165,7 @@ def gen(rng, ctx):
             for p in bb["outputs"]:
                 ltype.setdefault(f"{name}.{p}", "bb_output")
         elif k == "add_subcircuit":
-            ci = rng.randrange(2)
+            ci = rng.randrange(len(children))
             ch = children[ci]
             name = rng.choice(["I", "u", "s", "a"])
             io = [n for n, t, o in ch["nodes"] if t == "input" or o]
@@ -170,11 +175,16 @@ def gen(rng, ctx):
                     conns[p] = pick() if rng.random() < 0.85 else [pick(), pick()]
             if rng.random() < 0.1:
                 conns["m"] = pick()
+            outs_ = [n for n, t, o in ch["nodes"] if o and t != "input"]
+            if len(outs_) >= 2 and rng.random() < 0.5:
+                tgt = pick()
+                for o_ in outs_:
+                    conns[o_] = tgt  # each legal alone, illegal together
             ops.append({"op": "add_subcircuit", "child": ci, "name": name, "connections": conns})
             live += [f"{name}_{n}" for n, _, _ in ch["nodes"]]
         else:
             name = rng.choice(insts) if insts and rng.random() < 0.8 else rng.choice(["u", "v", "ghost"])
-            ops.append({"op": "fill_blackbox", "name": name, "child": rng.randrange(2)})
+            ops.append({"op": "fill_blackbox", "name": name, "child": rng.randrange(len(children))})
     return {"start": start, "children": children, "ops": ops}
 
 
